@@ -5,6 +5,12 @@ package recordstore
 // TLC decides (spec/record/TraceSegName.tla).
 
 import (
+	"bufio"
+	"encoding/json"
+	"os"
+	"os/exec"
+	"path/filepath"
+	"strconv"
 	"strings"
 	"testing"
 	"time"
@@ -13,14 +19,15 @@ import (
 )
 
 type vf26Case struct {
-	ID   int      `json:"id"`
-	Kind string   `json:"kind"` // enc | cand
-	Fmt  []string `json:"fmt"`  // tokens of the record path format (extension included)
-	Zone string   `json:"zone"` // server zone
-	P    string   `json:"p"`    // path name
-	U    int64    `json:"u"`    // enc: start instant, Unix seconds
-	US   int      `json:"us"`   // enc: microseconds
-	File string   `json:"file"` // cand: candidate file name
+	ID    int               `json:"id"`
+	Calls []json.RawMessage `json:"calls"` // hist: the calls (enc cases) of one history, run in order in a FRESH process
+	Kind  string            `json:"kind"`  // enc | cand | hist
+	Fmt   []string          `json:"fmt"`   // tokens of the record path format (extension included)
+	Zone  string            `json:"zone"`  // server zone
+	P     string            `json:"p"`     // path name
+	U     int64             `json:"u"`     // enc: start instant, Unix seconds
+	US    int               `json:"us"`    // enc: microseconds
+	File  string            `json:"file"`  // cand: candidate file name
 }
 
 type vf26Dec struct {
@@ -78,6 +85,10 @@ func TestVerif_C26_Replay(t *testing.T) {
 	verifrt.ForEachCase(t, func(raw []byte) {
 		var c vf26Case
 		verifrt.Decode(t, raw, &c)
+		if c.Kind == "hist" {
+			vf26History(t, out, &c)
+			return
+		}
 		loc, ok := locs[c.Zone]
 		if !ok {
 			var err error
@@ -103,4 +114,46 @@ func TestVerif_C26_Replay(t *testing.T) {
 		o.B = vf26Decode(format2, file)
 		out.Emit(&o)
 	})
+}
+
+// vf26History runs the calls of one history in a fresh process (this test binary, re-executed with the calls as
+// its cases): whatever the package remembers between calls starts empty, and the order of the calls is the
+// order of the history. The child's observations are passed on unchanged.
+func vf26History(t *testing.T, out *verifrt.Out, c *vf26Case) {
+	dir := t.TempDir()
+	cf := filepath.Join(dir, "h"+strconv.Itoa(c.ID)+".ndjson")
+	of := filepath.Join(dir, "h"+strconv.Itoa(c.ID)+".out")
+	f, err := os.Create(cf)
+	if err != nil {
+		t.Fatal(err)
+	}
+	for _, call := range c.Calls {
+		f.Write(call)
+		f.Write([]byte{'\n'})
+	}
+	f.Close()
+
+	cmd := exec.Command(os.Args[0], "-test.run=^TestVerif_C26_Replay$", "-test.count=1")
+	cmd.Env = append(os.Environ(), "VERIF_CASES="+cf, "VERIF_OUT="+of)
+	if b, err2 := cmd.CombinedOutput(); err2 != nil {
+		t.Fatalf("history %d: child process failed: %v\n%s", c.ID, err2, b)
+	}
+	rf, err := os.Open(of)
+	if err != nil {
+		t.Fatal(err)
+	}
+	defer rf.Close()
+	sc := bufio.NewScanner(rf)
+	sc.Buffer(make([]byte, 1<<20), 1<<26)
+	n := 0
+	for sc.Scan() {
+		if len(sc.Bytes()) == 0 {
+			continue
+		}
+		out.Emit(json.RawMessage(append([]byte(nil), sc.Bytes()...)))
+		n++
+	}
+	if n != len(c.Calls) {
+		t.Fatalf("history %d: %d observations for %d calls", c.ID, n, len(c.Calls))
+	}
 }
